@@ -578,6 +578,9 @@ pub fn record<S: System>(
             sys.rust_preamble(),
             lines.join("\n")
         );
+        if v.detail.is_empty() {
+            v.detail = "(detail elided: this signature occurred more than 64 times in this process)".to_string();
+        }
         v.detail = format!("{} [trace: {}]", v.detail, rendered.join(" ; "));
         for _ in 0..f.count.min(1) {
             chk.violate(v.clone());
